@@ -73,3 +73,24 @@ def patch_time(shim):
             zigpy.application.time = shim
     except Exception:  # pragma: no cover
         pass
+
+
+class TapeRandom:
+    """Stands in for the `random` module inside bellows.ezsp.v4 (address-table slot choice): fed by the tape."""
+
+    def __init__(self, tape):
+        self.tape = tape
+
+    def randint(self, a, b):
+        return a + self.tape.draw(b - a + 1, "random.randint")
+
+    def __getattr__(self, name):  # pragma: no cover - nothing else is used by bellows
+        import random
+
+        return getattr(random, name)
+
+
+def patch_random(tape):
+    import bellows.ezsp.v4
+
+    bellows.ezsp.v4.random = TapeRandom(tape)
